@@ -119,6 +119,23 @@ def judge(ctx, kind, graph_seed, knobs, a_mode, b_mode, p_outside):
                 ctx.violate("a_to_b", f"a_to_b:{kind}", observed=str(r.path), expected=str(PurePosixPath(str(b_arg)) / rel), spec=_spec)
         if orig is not None and a_arg is None and b_arg is None and PurePosixPath(str(r.path)) != PurePosixPath(str(orig.path)):
             ctx.violate("passthrough", f"passthrough:{kind}", observed=str(r.path), expected=str(orig.path), spec=_spec)
+    if ctx.every(_spec, 4):
+        # save / load positionally in the documented order (obj, path, audio_dir) / (path, audio_dir)
+        p2 = path + ".positional.json"
+        try:
+            IO.save(obj, p2, a_arg)
+            ctx.mon("calling_conventions")
+            d1, d2 = json.loads(Path(path).read_text()), json.loads(Path(p2).read_text())
+            if d1.get("data") != d2.get("data"):
+                ctx.violate("calling_convention", f"calling_convention:save:positional_in_documented_order:{kind}", observed="documents differ", spec=_spec)
+            l2 = IO.load(path, b_arg)
+            if {u: str(r.path) for u, r in _recordings(l2).items()} != {u: str(r.path) for u, r in lrecs.items()}:
+                ctx.violate("calling_convention", f"calling_convention:load:positional_in_documented_order:{kind}", observed="recording paths differ", spec=_spec)
+        except Exception as e:
+            ctx.violate_exc("load_raises", f"calling_convention_raises:{kind}:{type(e).__name__}", e, spec=_spec)
+        finally:
+            if os.path.exists(p2):
+                os.remove(p2)
     # ---- the same parsed document / the same collection converted again with OTHER directories: each conversion
     # stands on its own (nothing the first one did to the document object or to the recordings may show)
     if ctx.every(_spec, 2):
